@@ -7,7 +7,7 @@ VERIF = os.path.dirname(os.path.dirname(os.path.abspath(__file__)))
 REPO = "/repo"
 man = json.load(open(os.path.join(VERIF, "MANIFEST.json")))
 checks = [c["property_id"] for c in man["checks"]]
-extra = [a[2:] for a in sys.argv[1:] if a.startswith("+")]
+extra = [a[1:] for a in sys.argv[1:] if a.startswith("+")]
 names = [a for a in sys.argv[1:] if not a.startswith("+")] or sorted(os.listdir(os.path.join(VERIF, "seeded")))
 names = [n for n in names if os.path.isdir(os.path.join(VERIF, "seeded", n))]
 res_path = os.path.join(VERIF, "seeded", "RESULTS.json")
